@@ -331,7 +331,9 @@ class Canon(object):
             if isinstance(s, ast.Assign) and len(s.targets) == 1 and isinstance(s.targets[0], ast.Tuple) and isinstance(s.value, ast.Tuple) \
                     and len(s.targets[0].elts) == len(s.value.elts) and all(isinstance(t, (ast.Name, ast.Attribute)) for t in s.targets[0].elts):
                 tnames = [ast.unparse(t) for t in s.targets[0].elts]
-                indep = all(_pure(v) or i == 0 for i, v in enumerate(s.value.elts))
+                # with plain names on the left, evaluating X, binding a, evaluating Y, binding b is the same as evaluating both first
+                # (no value reads an earlier target: checked below); attribute targets need call-free values (a setter could run in between)
+                indep = all(isinstance(t, ast.Name) for t in s.targets[0].elts) or all(_pure(v) or i == 0 for i, v in enumerate(s.value.elts))
                 for i, v in enumerate(s.value.elts):
                     reads = set(ast.unparse(x) for x in ast.walk(v) if isinstance(x, (ast.Name, ast.Attribute)))
                     if any(t in reads or any(r.startswith(t + '.') for r in reads) for t in tnames[:i]):
@@ -396,7 +398,56 @@ class Canon(object):
             return self.block(out)          # an if/else collapsed into an assignment: it may now fold into the test that follows
         return out
 
+    def _ret_into(self, stmts, name):
+        """N30 helper: can the trailing `return <name>` be moved into this block (its last statement assigns name)?  Returns the new
+        block or None."""
+        if not stmts:
+            return None
+        last = stmts[-1]
+        if isinstance(last, ast.Assign) and len(last.targets) == 1 and isinstance(last.targets[0], ast.Name) and last.targets[0].id == name:
+            return stmts[:-1] + [ast.copy_location(ast.Return(value=last.value), last)]
+        if isinstance(last, (ast.Return, ast.Raise)):
+            return list(stmts)          # this branch never reaches the trailing return
+        if isinstance(last, ast.If) and last.orelse:
+            b, e = self._ret_into(last.body, name), self._ret_into(last.orelse, name)
+            if b is not None and e is not None:
+                return stmts[:-1] + [ast.copy_location(ast.If(test=last.test, body=b, orelse=e), last)]
+        if isinstance(last, ast.Try) and not last.finalbody and not last.orelse:
+            b = self._ret_into(last.body, name)
+            hs = [self._ret_into(h.body, name) for h in last.handlers]
+            if b is not None and all(h is not None for h in hs):
+                nh = [ast.copy_location(ast.ExceptHandler(type=h.type, name=h.name, body=hb), h) for h, hb in zip(last.handlers, hs)]
+                return stmts[:-1] + [ast.copy_location(ast.Try(body=b, handlers=nh, orelse=[], finalbody=[]), last)]
+        return None
+
     def tidy(self, out, first=True):
+        # N28 / N29  try ... except <handlers that all leave> ... else: B   ->   the try without else, then B
+        res = []
+        for i_, s in enumerate(out):
+            if isinstance(s, ast.Try) and s.orelse and not s.finalbody:
+                at_end = i_ == len(out) - 1 and self.fns and any(s is x for x in self.fns[-1].body)
+                if at_end:
+                    for h in s.handlers:          # falling out of a handler of the function's last statement returns None
+                        if not terminates(h.body):
+                            h.body = list(h.body) + [ast.copy_location(ast.Return(value=None), s)]
+                            self.hit('N29')
+                if all(terminates(h.body) for h in s.handlers):
+                    tail_ = s.orelse
+                    s.orelse = []
+                    res.append(s)
+                    res.extend(tail_)
+                    self.hit('N28')
+                    continue
+            res.append(s)
+        out = res
+        # N30  <if/else or try/except whose every branch ends in `x = E`> ; return x   ->   the branches return E themselves
+        if first and len(out) >= 2 and isinstance(out[-1], ast.Return) and isinstance(out[-1].value, ast.Name) and self.fns:
+            x = out[-1].value.id
+            if isinstance(out[-2], (ast.If, ast.Try)):
+                nb = self._ret_into([out[-2]], x)
+                if nb is not None and isinstance(out[-2], ast.Try) or (nb is not None and isinstance(out[-2], ast.If)):
+                    out = out[:-2] + nb
+                    self.hit('N30')
         # N10
         res = []
         for s in out:
@@ -464,6 +515,8 @@ class Canon(object):
 
     def norm_if(self, s, rest):
         """canonical statements for `s` followed by the (already canonical) statements *rest*"""
+        if s.orelse and all(isinstance(x, ast.Pass) for x in s.orelse):
+            s = ast.copy_location(ast.If(test=s.test, body=s.body, orelse=[]), s)          # N27  an else that does nothing
         # N25  if C: x = True else: x = False  ->  x = C   (x = not C for the mirrored constants)
         if len(s.body) == 1 and len(s.orelse) == 1 and all(isinstance(b, ast.Assign) and len(b.targets) == 1 and isinstance(b.targets[0], ast.Name)
                                                             and isinstance(b.value, ast.Constant) and isinstance(b.value.value, bool) for b in (s.body[0], s.orelse[0])) \
